@@ -29,7 +29,20 @@
 (* all representations (XForms), and the harness replays / records each    *)
 (* problem in several of them against the same specified outcome.          *)
 (*                                                                         *)
-(* prob = [n, perm, cpos, lower, upper, band, maxiter, mingood]            *)
+(* BREAKPOINTS.  The spline lives on a set of breakpoints, named 1..nbk.   *)
+(* A fit that finds breakpoints without support does not solve anything:   *)
+(* it DROPS some of them (status -1) and is made again - on the reduced    *)
+(* set.  bk is the set in effect.  Everything numerical is a function of   *)
+(* BOTH the set of points fitted and the breakpoints in effect: the oracle *)
+(* answers for (work, bk), the returned curve is the solution on the bk    *)
+(* the returned object carries, and nothing computed for an earlier,       *)
+(* larger breakpoint set may be carried over a drop.  WHICH breakpoints a  *)
+(* fit drops is the business of C09 (the environment chooses here); that   *)
+(* status 0 drops none, status -1 drops at least one, dropped breakpoints  *)
+(* never come back within a run and the residuals judged by a rejection    *)
+(* are those on the breakpoints of the fit just made is stated here.       *)
+(*                                                                         *)
+(* prob = [n, perm, cpos, lower, upper, band, maxiter, mingood, nbk]       *)
 (* mingood = fewest points a fit needs (the spline order); with fewer good *)
 (* points the statement says nothing: pc = "unspec".                       *)
 (***************************************************************************)
@@ -46,16 +59,18 @@ VARIABLES prob,      \* the problem (never changes)
           qdone,     \* the last rejection rejected nothing
           curveOf,   \* the set of points the current curve was fitted to
           outmask,   \* result: caller positions flagged good
-          hist       \* calls made to the two collaborators (fit, reject), in order
+          hist,      \* calls made to the two collaborators (fit, reject), in order
+          bk,        \* breakpoints in effect (a subset of 1..prob.nbk)
+          curveBk    \* the breakpoints the current curve was solved on
 
-vars == <<prob, pc, xsort, work, iter, status, qdone, curveOf, outmask, hist>>
+vars == <<prob, pc, xsort, work, iter, status, qdone, curveOf, outmask, hist, bk, curveBk>>
 
 IsPerm(s, n) == DOMAIN s = 1..n /\ {s[i] : i \in 1..n} = 1..n
 
 ProblemOK(p) ==
   /\ p.n \in Nat \ {0} /\ IsPerm(p.perm, p.n) /\ p.cpos \subseteq 1..p.n
   /\ p.lower \in Nat \ {0} /\ p.upper \in Nat \ {0} /\ p.band \in Nat /\ p.band < p.lower /\ p.band < p.upper
-  /\ p.maxiter \in Nat /\ p.mingood \in Nat \ {0}
+  /\ p.maxiter \in Nat /\ p.mingood \in Nat \ {0} /\ p.nbk \in Nat \ {0}
 
 Good(p) == {p.perm[c] : c \in p.cpos}                       \* ranks of the positively weighted points
 ArgSort(p) == [i \in 1..p.n |-> CHOOSE c \in 1..p.n : p.perm[c] = i]
@@ -65,14 +80,17 @@ SureBeyond(p, m, z)  == {i \in m : z[i] < -(p.lower + p.band) \/ z[i] > p.upper 
 MaybeBeyond(p, m, z) == {i \in m : z[i] < -(p.lower - p.band) \/ z[i] > p.upper - p.band}
 RejectionOK(p, m, z, B) == SureBeyond(p, m, z) \subseteq B /\ B \subseteq MaybeBeyond(p, m, z)
 
-FitEntry(m, st)      == [a |-> "fit", mask |-> m, st |-> st, z |-> <<>>, rej |-> {}]
-RejectEntry(m, z, B) == [a |-> "reject", mask |-> m, st |-> 0, z |-> z, rej |-> B]
+(* bk of a fit entry: the breakpoints in effect AFTER the fit (for status 0 the set it solved on);   *)
+(* bk of a reject entry: the breakpoints the residuals z were computed on                            *)
+FitEntry(m, st, b)      == [a |-> "fit", mask |-> m, st |-> st, z |-> <<>>, rej |-> {}, bk |-> b]
+RejectEntry(m, z, B, b) == [a |-> "reject", mask |-> m, st |-> 0, z |-> z, rej |-> B, bk |-> b]
 Fits(h)    == SelectSeq(h, LAMBDA e : e.a = "fit")
 Rejects(h) == SelectSeq(h, LAMBDA e : e.a = "reject")
 
 InitWith(p) ==
   /\ prob = p /\ pc = "start" /\ xsort = <<>> /\ work = {} /\ iter = 0 /\ status = 0
   /\ qdone = FALSE /\ curveOf = {} /\ outmask = {} /\ hist = <<>>
+  /\ bk = 1..p.nbk /\ curveBk = {}
 
 (* ---- the steps of the procedure ---- *)
 Sort ==
@@ -80,16 +98,21 @@ Sort ==
   /\ xsort' = ArgSort(prob)
   /\ work' = {i \in 1..prob.n : xsort'[i] \in prob.cpos}
   /\ pc' = IF Cardinality(work') < prob.mingood THEN "unspec" ELSE "fit"
-  /\ UNCHANGED <<prob, iter, status, qdone, curveOf, outmask, hist>>
+  /\ UNCHANGED <<prob, iter, status, qdone, curveOf, outmask, hist, bk, curveBk>>
 
-(* the fit collaborator is called with the weights of exactly the current good set *)
-Fit(st) ==
+(* the fit collaborator is called with the weights of exactly the current good set, on the        *)
+(* breakpoints in effect; d = the breakpoints it drops: none with status 0 (it solved), at least   *)
+(* one with status -1 (it solved nothing; the next fit is made on what is left)                    *)
+Fit(st, d) ==
   /\ pc = "fit"
   /\ st \in {0, -1}
+  /\ d \subseteq bk /\ (st = 0 <=> d = {})
   /\ curveOf' = work
   /\ status' = st
   /\ iter' = iter + 1
-  /\ hist' = Append(hist, FitEntry(work, st))
+  /\ bk' = bk \ d
+  /\ curveBk' = bk'
+  /\ hist' = Append(hist, FitEntry(work, st, bk'))
   /\ pc' = IF st = 0 THEN "reject" ELSE "loop"
   /\ UNCHANGED <<prob, xsort, work, qdone, outmask>>
 
@@ -98,44 +121,46 @@ FitFails ==
   /\ pc = "fit"
   /\ pc' = "unspec"
   /\ iter' = iter + 1
-  /\ hist' = Append(hist, FitEntry(work, -2))
-  /\ UNCHANGED <<prob, xsort, work, status, qdone, curveOf, outmask>>
+  /\ hist' = Append(hist, FitEntry(work, -2, bk))
+  /\ UNCHANGED <<prob, xsort, work, status, qdone, curveOf, outmask, bk, curveBk>>
 
-(* rejection: only points of the current good set are considered, rejected points never return *)
-Reject(z, B) ==
+(* rejection: only points of the current good set are considered, rejected points never return; *)
+(* zb = the breakpoints the residuals z were computed on: those in effect                        *)
+Reject(z, B, zb) ==
   /\ pc = "reject"
   /\ DOMAIN z = 1..prob.n
+  /\ zb = bk
   /\ RejectionOK(prob, work, z, B)
   /\ work' = work \ B
   /\ qdone' = (B = {})
-  /\ hist' = Append(hist, RejectEntry(work, z, B))
+  /\ hist' = Append(hist, RejectEntry(work, z, B, zb))
   /\ pc' = "loop"
-  /\ UNCHANGED <<prob, xsort, iter, status, curveOf, outmask>>
+  /\ UNCHANGED <<prob, xsort, iter, status, curveOf, outmask, bk, curveBk>>
 
 (* maxiter = 0 "disables rejection": the statement fixes the curve (the plain fit), it does not *)
 (* say whether the mask of that single pass is still reported; both are accepted                *)
 SkipReject ==
   /\ pc = "reject" /\ prob.maxiter = 0
   /\ pc' = "unsort"
-  /\ UNCHANGED <<prob, xsort, work, iter, status, qdone, curveOf, outmask, hist>>
+  /\ UNCHANGED <<prob, xsort, work, iter, status, qdone, curveOf, outmask, hist, bk, curveBk>>
 
 Continue == (status # 0 \/ ~qdone) /\ iter <= prob.maxiter
 
 LoopOrExit ==
   /\ pc = "loop"
   /\ pc' = IF Continue THEN (IF Cardinality(work) < prob.mingood THEN "unspec" ELSE "fit") ELSE "unsort"
-  /\ UNCHANGED <<prob, xsort, work, iter, status, qdone, curveOf, outmask, hist>>
+  /\ UNCHANGED <<prob, xsort, work, iter, status, qdone, curveOf, outmask, hist, bk, curveBk>>
 
 Unsort ==
   /\ pc = "unsort"
   /\ outmask' = {xsort[i] : i \in work}
   /\ pc' = "return"
-  /\ UNCHANGED <<prob, xsort, work, iter, status, qdone, curveOf, hist>>
+  /\ UNCHANGED <<prob, xsort, work, iter, status, qdone, curveOf, hist, bk, curveBk>>
 
 Return ==
   /\ pc = "return"
   /\ pc' = "done"
-  /\ UNCHANGED <<prob, xsort, work, iter, status, qdone, curveOf, outmask, hist>>
+  /\ UNCHANGED <<prob, xsort, work, iter, status, qdone, curveOf, outmask, hist, bk, curveBk>>
 
 Finished == pc \in {"done", "unspec"}
 Stutter == Finished /\ UNCHANGED vars
@@ -146,7 +171,7 @@ Dev_StopsAfterFirstReject ==
   /\ pc = "loop"
   /\ pc' = IF status # 0 /\ iter <= prob.maxiter
            THEN (IF Cardinality(work) < prob.mingood THEN "unspec" ELSE "fit") ELSE "unsort"
-  /\ UNCHANGED <<prob, xsort, work, iter, status, qdone, curveOf, outmask, hist>>
+  /\ UNCHANGED <<prob, xsort, work, iter, status, qdone, curveOf, outmask, hist, bk, curveBk>>
 
 (* ---- properties (state predicates over the machine) ---- *)
 PCs == {"start", "fit", "reject", "loop", "unsort", "return", "done", "unspec"}
@@ -156,6 +181,8 @@ TypeOK ==
   /\ work \subseteq 1..prob.n /\ curveOf \subseteq 1..prob.n /\ outmask \subseteq 1..prob.n
   /\ iter \in 0..(prob.maxiter + 1) /\ status \in {0, -1} /\ qdone \in BOOLEAN
   /\ \A k \in DOMAIN hist : hist[k].a \in {"fit", "reject"} /\ hist[k].mask \subseteq 1..prob.n
+                             /\ hist[k].bk \subseteq 1..prob.nbk
+  /\ bk \subseteq 1..prob.nbk /\ curveBk \subseteq 1..prob.nbk
 
 Returned == pc \in {"return", "done"}
 
@@ -192,6 +219,34 @@ RejectedStayOut ==
         (hist[k].mask \cap hist[j].rej = {} /\ work \cap hist[j].rej = {})
   /\ \A j, k \in DOMAIN hist : j < k => hist[k].mask \subseteq hist[j].mask
   /\ \A k \in DOMAIN hist : work \subseteq hist[k].mask
+
+(* breakpoints: status 0 drops none, status -1 at least one; what is dropped stays dropped; the  *)
+(* breakpoints in effect are those the last fit left                                             *)
+BkBefore(k) == IF \E j \in 1..(k-1) : hist[j].a = "fit"
+               THEN hist[CHOOSE j \in 1..(k-1) : hist[j].a = "fit" /\ \A i \in (j+1)..(k-1) : hist[i].a # "fit"].bk
+               ELSE 1..prob.nbk
+BreakpointsOnlyShrink ==
+  /\ \A k \in DOMAIN hist : hist[k].a = "fit" =>
+        /\ hist[k].bk \subseteq BkBefore(k)
+        /\ (hist[k].st = 0  => hist[k].bk = BkBefore(k))
+        /\ (hist[k].st = -1 => hist[k].bk # BkBefore(k))
+  /\ bk = BkBefore(Len(hist) + 1)
+
+(* the residuals a rejection judges are those of the fit just made, on the breakpoints that fit   *)
+(* solved on - never residuals computed for an earlier, larger breakpoint set                    *)
+ResidualsOnBreakpointsInEffect ==
+  \A k \in DOMAIN hist : hist[k].a = "reject" =>
+     /\ k > 1 /\ hist[k-1].a = "fit" /\ hist[k-1].st = 0
+     /\ hist[k].bk = hist[k-1].bk /\ hist[k].mask = hist[k-1].mask
+
+(* the curve handed back was solved on the breakpoints the returned object carries; a run comes   *)
+(* back with an unsolved fit (breakpoints just dropped) only when the budget is used up           *)
+ReturnedCurveOnReturnedBreakpoints ==
+  Returned => /\ curveBk = bk
+              /\ (status # 0 => iter > prob.maxiter)
+              /\ (status = 0 => \E k \in DOMAIN hist : /\ hist[k].a = "fit" /\ hist[k].st = 0 /\ hist[k].bk = bk
+                                                       /\ hist[k].mask = curveOf
+                                                       /\ \A j \in (k+1)..Len(hist) : hist[j].a # "fit")
 
 (* clear outliers: whatever the first fit puts beyond the limits ends False, and with rejection *)
 (* enabled the returned curve was fitted without it                                             *)
